@@ -32,7 +32,8 @@ type engine struct {
 func (e *engine) Rule() string {
 	return "C07: random add/get/seek/scan sequences on a fresh Skiplist and a fresh ART; user keys from an alphabet with 00/ff, " +
 		"byte-prefix pairs (k, k·00, k·ff, k·x), keys sharing >16-byte prefixes, fan-outs of up to 60 sibling bytes, " +
-		"padding-conflated pairs (u@v, u·t0@v'), many versions per key (0,1,2,255,256,511,2^32,2^64-1), ~2% keys of 65535..70000 bytes, " +
+		"padding-conflated pairs (u@v, u·t0@v'), many versions per key (0,1,2,255,256,511,2^32,2^64-1), version ladders (3-7 versions sharing version-byte prefixes, read between the rungs), "+
+		"sibling-subtree families (p·b·x keys, probes at absent keys just above/below/between populated subtrees), ~2% keys of 65535..70000 bytes, " +
 		"2-4 concurrently inserting goroutines; non-trivial = at least 2 adds of prefix-related or equal user keys and at least one get/seek/scan answered non-empty"
 }
 
@@ -127,8 +128,116 @@ func (e *engine) Gen(r *hlib.Rand, tier string) []string {
 		}
 		return hlib.Hex(ukey(r)), strconv.FormatUint(ver(r), 10)
 	}
+	probeAt := func(u []byte, v uint64) {
+		switch r.Intn(5) {
+		case 0, 1:
+			ops = append(ops, fmt.Sprintf("get %s %d", hlib.Hex(u), v))
+		case 2, 3:
+			ops = append(ops, fmt.Sprintf("seek asc %s %d %d", hlib.Hex(u), v, 1+r.Intn(4)))
+		default:
+			ops = append(ops, fmt.Sprintf("seek desc %s %d %d", hlib.Hex(u), v, 1+r.Intn(4)))
+		}
+	}
+	// versionLadder: several versions of one user key whose version bytes share prefixes, so that the
+	// suffix bytes of the internal key form inner nodes of their own; then reads between the rungs:
+	// the newest visible version sits under a *greater sibling* of the subtree the exact descent
+	// enters (e.g. versions 0x0105, 0x0205, 0x0210 read at 0x0200).
+	versionLadder := func() {
+		u := ukey(r)
+		shift := uint(8 * (1 + r.Intn(4)))
+		a := uint64(1 + r.Intn(200))
+		lo := func() uint64 { return uint64(1 + r.Intn(0x30)) }
+		vs := []uint64{(a+1)<<shift | lo(), (a+1)<<shift | lo() + 0x40, a<<shift | lo()}
+		if r.Bool() {
+			vs = append(vs, (a+2)<<shift|lo(), (a+1)<<shift|lo()+0x80)
+		}
+		if r.Bool() {
+			vs = append(vs, a<<shift|lo()+0x40, (a-1)<<shift|lo())
+		}
+		for k := len(vs) - 1; k > 0; k-- {
+			l := r.Intn(k + 1)
+			vs[k], vs[l] = vs[l], vs[k]
+		}
+		for _, v := range vs {
+			addOp(u, v)
+		}
+		reads := []uint64{(a + 1) << shift, (a+1)<<shift | 0x3f, (a+1)<<shift | 0x7f, a << shift, a<<shift | 0x3f, (a + 2) << shift, (a+2)<<shift - 1, (a + 3) << shift, (a - 1) << shift}
+		for i := 0; i < 4+r.Intn(6); i++ {
+			v := hlib.Pick(r, reads)
+			if r.Chance(25) {
+				v = (a-1)<<shift + r.U64()%(4<<shift)
+			}
+			probeAt(u, v)
+		}
+	}
+	// subtreeFamily: user keys p·b·x below a few branch bytes b, and probes at absent keys just above
+	// / below / between the populated subtrees (keys ab1 ab3 ac1 ad4, probes ab5 ab0 ab2 ac0 ae0 …).
+	subtreeFamily := func() {
+		pfx := ukey(r)
+		v := ver(r)
+		nb := 2 + r.Intn(3)
+		b0 := byte(0x20 + r.Intn(0x80))
+		type kx struct{ b, x byte }
+		var have []kx
+		for j := 0; j < nb; j++ {
+			b := b0 + byte(j*(1+r.Intn(2)))
+			nx := 1 + r.Intn(3)
+			x := byte(0x30 + r.Intn(4))
+			for k := 0; k < nx; k++ {
+				have = append(have, kx{b, x})
+				x += byte(1 + r.Intn(3))
+			}
+		}
+		for k := len(have) - 1; k > 0; k-- {
+			l := r.Intn(k + 1)
+			have[k], have[l] = have[l], have[k]
+		}
+		mk := func(b, x byte) []byte { return append(append([]byte{}, pfx...), b, x) }
+		for _, h := range have {
+			addOp(mk(h.b, h.x), v)
+			if r.Chance(20) {
+				addOp(mk(h.b, h.x), v+1+uint64(r.Intn(3)))
+			}
+		}
+		for i := 0; i < 5+r.Intn(8); i++ {
+			h := hlib.Pick(r, have)
+			var t []byte
+			switch r.Intn(7) {
+			case 0:
+				t = mk(h.b, h.x+1)
+			case 1:
+				t = mk(h.b, 0xff)
+			case 2:
+				t = mk(h.b, h.x-1)
+			case 3:
+				t = mk(h.b, 0x00)
+			case 4:
+				t = append(append([]byte{}, pfx...), h.b)
+			case 5:
+				t = mk(h.b+1, 0x00)
+			default:
+				t = append(mk(h.b, h.x), byte(r.Intn(256)))
+			}
+			tv := v
+			switch r.Intn(5) {
+			case 0:
+				tv = v + 1
+			case 1:
+				tv = v - 1
+			case 2:
+				tv = math.MaxUint64
+			}
+			probeAt(t, tv)
+		}
+	}
 	kind := r.Intn(100)
 	big := false
+	if r.Chance(35) {
+		versionLadder()
+	}
+	if r.Chance(35) {
+		subtreeFamily()
+	}
 	for i := 0; i < n; i++ {
 		switch x := r.Intn(100); {
 		case x < 40:
@@ -165,6 +274,12 @@ func (e *engine) Gen(r *hlib.Rand, tier string) []string {
 			if st := len(raw) % 65536; st > 8 && st != len(raw) {
 				t := raw[:st]
 				ops = append(ops, fmt.Sprintf("get %s %d", hlib.Hex(t[:st-8]), math.MaxUint64-binary.BigEndian.Uint64(t[st-8:])))
+			}
+		case x < 54:
+			if r.Bool() {
+				versionLadder()
+			} else {
+				subtreeFamily()
 			}
 		case x < 70:
 			u, v := target()
